@@ -8,6 +8,11 @@ from props.common import run_bounded
 def run(rep, kf, tier, seed):
     engine_b.discharge(rep, kf, [cn.handle_nullable_contract(), cn.get_document_contract(), cn.load_contract()], "C17", tier, seed)
     cd.discharge(rep, kf, "C17", tier, seed)
+    # wrapper == bare reference also needs: _property_from_ref with a parent that declares no default == with no parent
+    from props.C20 import ref_tasks
+    for r in core.run_parallel(ref_tasks("C17", tier, seed, kf)[:-1]):
+        r.obligations = [o for o in r.obligations if "C17" in o.props or o.id.endswith("no-exception-escapes")]
+        rep.merge(r)
     run_bounded(rep, kf, "C17", ["equivalent_docs"], tier)
     rep.trusted.extend(["pyvc Engine B", "pydantic runs the model validators on every Schema (assumed)"])
     rep.assumptions.extend([
